@@ -318,7 +318,8 @@ class Ctx:
     for cfg, subs in passes.items():
       for sub, stride in subs.items():
         cases = self.planned.get(sub, [])
-        sel = cases if self.tier == 'thorough' else cases[::max(1, stride)]
+        # x64_late differs from x64 only in WHEN the mode is switched on: a sub-lattice (plus config_cases) in both tiers
+        sel = cases if (self.tier == 'thorough' and cfg != 'x64_late') else cases[::max(1, stride)]
         import importlib
         extra = getattr(importlib.import_module(self.module_name), 'config_cases', None)
         if extra is not None:
